@@ -76,6 +76,8 @@ func newCtx(P *Program) *Ctx {
 		heapCellT: map[string]types.Type{}, heapDims: map[string]int{}, heapKeyS: map[string]string{}, heapReg: map[string]func(*Ctx){}}
 	c.typeByID = append(c.typeByID, nil)
 	c.decls = append(c.decls, "(assert (forall ((a! (Array Int Int)) (o! Int) (n! Int)) (! (= (bv.len (bv.of a! o! n!)) n!) :pattern ((bv.of a! o! n!)))))")
+	// byte i of the byte string made of a[o..o+n) is a[o+i]
+	c.decls = append(c.decls, "(assert (forall ((a! (Array Int Int)) (o! Int) (n! Int) (i! Int)) (! (=> (and (<= 0 i!) (< i! n!)) (= (bv.at (bv.of a! o! n!) i!) (select a! (+ o! i!)))) :pattern ((bv.at (bv.of a! o! n!) i!)))))")
 	return c
 }
 
